@@ -114,6 +114,11 @@ def _prune(facts_root, keep):
 # configuration name -> extra cargo arguments
 CONFIGS = {
     "workspace": ["--workspace"],
+    # thorough tier: feature configurations the workspace unification hides
+    "server-all": ["-p", "sos-server", "--all-features"],
+    "server-min": ["-p", "sos-server", "--no-default-features"],
+    "net-min": ["-p", "sos-net", "--no-default-features"],
+    "protocol-min": ["-p", "sos-protocol", "--no-default-features"],
 }
 
 
